@@ -230,6 +230,10 @@ pub struct Exec<'a, RK: RadioKind> {
     init_failed: bool,
     /// after the failed init() the caller went on with a successful prepare_* / adapter call (no init() in between)
     prepared_since_failed_init: bool,
+    /// the sync word the application last asked for (None: unknown after a faulted or refused request)
+    want_sync: Option<u16>,
+    seen_tx_starts: usize,
+    seen_rx_starts: usize,
     pub stats: RunStats,
     shape: Fnv,
     pub violation: Option<Violation>,
@@ -268,6 +272,9 @@ impl<'a, RK: RadioKind> Exec<'a, RK> {
             lw_rx_set: false,
             init_failed: false,
             prepared_since_failed_init: false,
+            want_sync: Some(0x3444),
+            seen_tx_starts: 0,
+            seen_rx_starts: 0,
             stats: RunStats::default(),
             shape: Fnv::new(),
             violation: None,
@@ -568,6 +575,37 @@ impl<'a, RK: RadioKind> Exec<'a, RK> {
         }
         // ---- monitors (b) and (c): raised by the chip model ----
         self.take_alert();
+        // (c) continued: the sync word in the chip when a transmission / reception starts is the one asked for
+        if let Op::SetSyncWord { word } = step.op {
+            self.want_sync = if res == Res::Ok { Some(word) } else { None };
+        }
+        {
+            let starts: Vec<u16> = {
+                let w = self.world.borrow();
+                let (tx, rx): (Vec<u16>, Vec<u16>) = match &w.chip {
+                    Chip::C126(c) => (c.tx_rf_log[self.seen_tx_starts.min(c.tx_rf_log.len())..].iter().map(|x| x.0.sync).collect(), c.rx_rf_log[self.seen_rx_starts.min(c.rx_rf_log.len())..].iter().map(|x| x.sync).collect()),
+                    Chip::C127(c) => (c.tx_rf_log[self.seen_tx_starts.min(c.tx_rf_log.len())..].iter().map(|x| x.0.sync).collect(), c.rx_rf_log[self.seen_rx_starts.min(c.rx_rf_log.len())..].iter().map(|x| x.sync).collect()),
+                };
+                self.seen_tx_starts += tx.len();
+                self.seen_rx_starts += rx.len();
+                tx.into_iter().chain(rx).collect()
+            };
+            if let (Some(want), false) = (self.want_sync, matches!(step.op, Op::Listen { .. })) {
+                let want_chip = if self.is_126x { want } else { (((want >> 8) & 0xF0) | ((want & 0xFF) >> 4)) & 0xFF };
+                if let Some(got) = starts.iter().find(|g| **g != want_chip) {
+                    if self.world.borrow().env.clean {
+                        self.violate(
+                            "C14.started-unconfigured",
+                            format!("{}|{fam}|{}|sync-word-value", if self.init_failed { "after-failed-init-unprepared" } else { "normal" }, step.op.name()),
+                            format!("{}() started with sync word {got:#06x} in the chip; the application last set {want:#06x}", step.op.name()),
+                        );
+                    }
+                }
+                if !starts.is_empty() {
+                    self.stats.bump("probe.sync-word-value-checked");
+                }
+            }
+        }
 
         // ---- monitor (a): wrong mode => refused, and a refusal never touches the chip ----
         let required: Option<fn(M) -> bool> = match step.op {
